@@ -98,10 +98,11 @@ CHECKS = {
              "For ~105 templates the viral column of the emitted SQL is compared, over all inputs of 2-3 datapoints with nullable viral values, with the model: pairwise combination for ds-ds operators, "
              "joins and dataset-if; per-datapoint (enumerated) or whole-operand (aggregate) for row-preserving operators; group combination for aggregations; unchanged by clauses, assignment and set operators."),
     "C30": dict(
-        technique="CrossHair symbolic execution of the real set_decimal_config/_parse_env_value with the environment as symbolic integers",
+        technique="CrossHair symbolic execution of the real set_decimal_config/_parse_env_value with the environment as symbolic integers; z3 over a translation of _round_significant into real arithmetic",
         text="Partial. Decides, for every integer -5..45 (and 'not defined') of both variables at once, that a setting is accepted exactly when documented, "
              "that an accepted setting yields the documented DECIMAL(width,scale) that DuckDB can create, and that the effect of a configuration does "
-             "not depend on the previous configuration of the process (2-run histories). What DuckDB stores/rounds/sums under the setting is outside.",
+             "not depend on the previous configuration of the process (2-run histories); and (z3, real arithmetic translated from the current source of _round_significant) that a fetched scalar is rounded to the configured "
+             "number of significant digits for every value of 13 (17) decades and every setting 6..15. What DuckDB stores/rounds/sums under the setting is outside.",
         note="Stubs: os.getenv/os.environ.get return the symbolic values; error-message formatting skipped. Trusted: CrossHair, transcription of the documented ranges.",
         ref="3 C30"),
     "C19": dict(technique="SMT (z3) over a character-level encoding of the real vtl_period_normalize macro, the real loader patterns compiled to automata and the statement sequence recorded from the real _validate_loaded_table; witnesses replayed through run()",
